@@ -2,7 +2,7 @@
 
 use crate::driver::CheckSpec;
 use crate::families as fam;
-use crate::ir::Program;
+use crate::ir::{Program, Res};
 use crate::pool::Job;
 use crate::subject::Cfg;
 use std::time::Duration;
@@ -57,13 +57,16 @@ pub fn asc_programs(tier: &str) -> (Vec<Program>, String) {
         v.extend(fam::a_sc(1, 2, 3, 5, true));
         v.extend(fam::a_sc(2, 2, 2, 4, true));
         v.extend(fam::a_sc(1, 3, 1, 3, false));
-        level = "A-sc: 2 threads x <=2 ops (1 location), RMW-only 2 threads <=5 ops, 3 threads x 1 op".to_string();
+        v.extend(fam::a_sc_stagger(2, 3, 2, 4));
+        level = "A-sc: 2 threads x <=2 ops (1 location), RMW-only 2 threads <=5 ops, 3 threads x 1 op; staggered joins: 3 children <=4 ops on 2 locations with main between joins".to_string();
     } else {
         v.extend(fam::a_sc(1, 2, 3, 6, false));
         v.extend(fam::a_sc(2, 2, 2, 4, false));
         v.extend(fam::a_sc(2, 2, 3, 6, true));
         v.extend(fam::a_sc(1, 3, 2, 4, false));
-        level = "A-sc: 2 threads x <=3 ops, 2 locations x <=2 ops, RMW-only <=6 ops, 3 threads <=4 ops".to_string();
+        v.extend(fam::a_sc_stagger(2, 3, 2, 5));
+        v.extend(fam::a_sc_stagger(1, 3, 2, 4));
+        level = "A-sc: 2 threads x <=3 ops, 2 locations x <=2 ops, RMW-only <=6 ops, 3 threads <=4 ops; staggered joins: 3 children <=5 ops".to_string();
     }
     v.extend(fam::asc_sentinels());
     (v, level)
@@ -140,8 +143,43 @@ pub fn spec(check: &str, tier: &str) -> Option<CheckSpec> {
                 abort_is_violation: true,
             })
         }
+        "C06" => {
+            let pick = |x: Vec<Program>, n: usize| -> Vec<Program> {
+                let step = (x.len() / n).max(1);
+                x.into_iter().step_by(step).take(n).collect()
+            };
+            let n = if tier == "quick" { 12 } else { 120 };
+            let mut base = vec![];
+            base.extend(pick(fam::lock_family(2, 0, 2, 3, 6, true, true), n));
+            base.extend(pick(fam::lock_family(0, 1, 2, 3, 6, true, true), n / 2));
+            base.extend(pick(fam::wait_family(1, 2, 1, 10, true, true, true), n));
+            base.extend(pick(fam::chan_family(2, 1, 2, true), n / 2));
+            base.extend(pick(fam::arc_family(1, 2, 1, 3, false, false, false), n));
+            base.extend(pick(fam::a_sc(1, 2, 2, 4, false), n));
+            base.extend(fam::lock_sentinels());
+            let values = [Res::V(0), Res::V(1), Res::V(2), Res::Ok(0), Res::Err(0), Res::Ok(1)];
+            let mut progs = vec![];
+            for b in &base {
+                progs.push(b.clone());
+                progs.extend(fam::with_crash_points(b, &values));
+            }
+            let nb = base.len();
+            Some(CheckSpec {
+                id: "C06",
+                level: "fault_enumeration",
+                rule: "base programs (evenly spaced members of LOCK, WAIT, CHAN, ARC, A-sc + sentinels) x every crash point: a panic inserted at every (thread, position), unconditionally and conditionally on each possible value of the preceding schedule-dependent result (so the failing iteration is first, middle or last); plus the base programs themselves (including ones that deadlock); after every run a sentinel model runs in the same process; non-trivial = the reference can reach the crash point",
+                assumptions: vec!["SC machine decides whether a crash point is reachable", "a fresh child process gives the sentinel's reference sequence"],
+                wall_cap: wall,
+                jobs: jobs("C06", tier, progs, &cfg),
+                self_checks: vec![],
+                completed_level: format!("{} base programs", nb),
+                abort_is_violation: true,
+            })
+        }
         "C07" => {
-            let (progs, level) = lock_programs(tier);
+            let (mut progs, mut level) = lock_programs(tier);
+            progs.extend(fam::race_s_lock(tier));
+            level.push_str("; + two cell accesses inserted at every pair of positions into 2-3 thread lock programs (hand-over ordering as a race verdict)");
             Some(CheckSpec {
                 id: "C07",
                 level: "model_checking",
@@ -155,7 +193,9 @@ pub fn spec(check: &str, tier: &str) -> Option<CheckSpec> {
             })
         }
         "C08" => {
-            let (progs, level) = wait_programs(tier);
+            let (mut progs, mut level) = wait_programs(tier);
+            progs.extend(fam::race_s_wait(tier));
+            level.push_str("; + two cell accesses inserted at every pair of positions into wait/notify idioms incl. two notifiers (notifier's writes happen-before the continuation)");
             Some(CheckSpec {
                 id: "C08",
                 level: "model_checking",
@@ -169,7 +209,9 @@ pub fn spec(check: &str, tier: &str) -> Option<CheckSpec> {
             })
         }
         "C09" => {
-            let (progs, level) = chan_programs(tier);
+            let (mut progs, mut level) = chan_programs(tier);
+            progs.extend(fam::race_s_chan(tier));
+            level.push_str("; + two cell accesses inserted at every pair of positions into channel programs (send happens-before the receive and later receives)");
             Some(CheckSpec {
                 id: "C09",
                 level: "model_checking",
